@@ -159,6 +159,18 @@ Theorem subquery_writer_is_internal :
 Proof. exact subquery_internal. Qed.
 Print Assumptions subquery_writer_is_internal.
 
+(* the DoH / DoH3 writer (internal/mock.Writer) computes its own Internal() by the same rule and so
+   adds nothing: behind it a request is internal exactly on the address signature *)
+Theorem doh_writer_adds_no_internal : forall r,
+  r_says r = Some (transport_says r) -> writer_internal r = sentinel_remote r.
+Proof. exact mock_writer_adds_nothing. Qed.
+Print Assumptions doh_writer_adds_no_internal.
+
+Theorem mock_writer_classification_pinned :
+  mock_arms = [bytes_of "UDPAddr"%string; bytes_of "TCPAddr"%string].
+Proof. exact mock_text_pinned. Qed.
+Print Assumptions mock_writer_classification_pinned.
+
 (* the access list as the chain runs it, for every transport: exact *)
 Theorem accesslist_exact_on_every_transport : forall n_entries ps r,
   Forall (fun p => prefix_ok p = true) ps -> (forall a, r_ip r = Some a -> addr_ok a) ->
